@@ -737,6 +737,7 @@ pub fn gen_seq(rng: &mut Rng, max_len: usize) -> Case {
         }
     }
     let mut knobs = Knobs::default();
+    knobs.monitors = false;
     knobs.time = TimeS::Tick;
     knobs.spin = [*rng.pick(&[0u16, 1, 3]), *rng.pick(&[0u16, 1, 3]), *rng.pick(&[0u16, 1, 3])];
     knobs.parallelism = *rng.pick(&[1u8, 4]);
@@ -862,6 +863,7 @@ pub fn enum_seq(index: u64, max_len: u32) -> Case {
         ops.push(op);
     }
     let mut knobs = Knobs::default();
+    knobs.monitors = false;
     knobs.spin = [1, 1, 1];
     Case { cap, ctor: Flavour::Sync, class: Class::SmallDrop, mask: 0x5555_AAAA_1234_F0F0 ^ index, knobs, tasks: vec![TaskSpec { handles, ops }], main_keeps_roots: false, lock_harness: false, epilogue: vec![] }
 }
